@@ -216,6 +216,26 @@ def state_goal_spec(state, inst, **kw):
                     rdef=False, nom=[float(inst["nom"].get(canon, 1.0))], **kw)
 
 
+def shift_targets(specs, delta):
+    """copies of the specs with every finite target entry moved by `delta` (uniform: monotone
+    chains and min <= max are preserved)"""
+    def sh(t):
+        k, v = t
+        f = lambda x: x + delta if math.isfinite(x) else x  # noqa
+        if k == "s":
+            return (k, f(v))
+        if k == "v":
+            return (k, [f(x) for x in v])
+        return (k, [[f(x) for x in col] for col in v])
+
+    out = []
+    for s in specs:
+        h = GoalSpec(**{k: (list(v) if isinstance(v, list) else v) for k, v in s.__dict__.items()})
+        h.tmin, h.tmax = sh(s.tmin), sh(s.tmax)
+        out.append(h)
+    return out
+
+
 def term_range(terms):
     """interval hull of sum coef*var over the variable boxes"""
     lo = sum(min(c * RANGES[v][0], c * RANGES[v][1]) for v, c in terms)
@@ -262,13 +282,15 @@ def problem_classes():
     class Base(CollocatedIntegratedOptimizationProblem):
         """x' = -p*x + u + c ; y = x + q (algebraic)"""
 
-        def __init__(self, times=None, pvals=None, cvals=None, nom=None, x0=None, probs=None, **kw):
+        def __init__(self, times=None, pvals=None, cvals=None, nom=None, x0=None, probs=None, cache_inputs=False, **kw):
             self._times = np.array(times, dtype=float)
             self._pvals = pvals
             self._cvals = cvals
             self._nom = nom or {}
             self._x0 = x0
             self._probs = probs
+            self._cache_inputs = cache_inputs  # constant_inputs() returns ONE dict object per member (as IOMixin's @cached does)
+            self._ci_cache = {}
             x = ca.MX.sym("x")
             dx = ca.MX.sym("der(x)")
             y = ca.MX.sym("y")
@@ -315,8 +337,12 @@ def problem_classes():
             return d
 
         def constant_inputs(self, ensemble_member):
+            if self._cache_inputs and ensemble_member in self._ci_cache:
+                return self._ci_cache[ensemble_member]
             d = AliasDict(self._ar)
             d["c"] = Timeseries(self._times, np.array(self._cvals[ensemble_member], dtype=float))
+            if self._cache_inputs:
+                self._ci_cache[ensemble_member] = d
             return d
 
         def variable_nominal(self, v):
@@ -366,6 +392,12 @@ def problem_classes():
             super().__init__(**kw)
             t = self.times()
             self._goal_objs = [build_goal(s, t, problem=self) for s in self._specs]
+
+        def set_specs(self, specs):
+            """new goals for a further optimize() call on the same object"""
+            self._specs = specs
+            self._goal_objs = [build_goal(s, self.times(), problem=self) for s in specs]
+            self.snaps, self.extras, self.events = [], [], []
 
         def goals(self):
             return [g for g in self._goal_objs if g.spec.point is not None]
